@@ -17,6 +17,20 @@ import (
 
 type vectorAccumulator func([]float64) float64
 
+// sumFloats adds the values up starting from the first one, as the Prometheus
+// engine does. Starting from zero would turn a sum of negative zeros into a
+// positive zero.
+func sumFloats(in []float64) float64 {
+	if len(in) == 0 {
+		return 0
+	}
+	sum := in[0]
+	for _, v := range in[1:] {
+		sum += v
+	}
+	return sum
+}
+
 type vectorTable struct {
 	timestamp   int64
 	value       float64
@@ -75,7 +89,7 @@ func newVectorAccumulator(expr parser.ItemType) (vectorAccumulator, error) {
 	t := parser.ItemTypeStr[expr]
 	switch t {
 	case "sum":
-		return floats.Sum, nil
+		return sumFloats, nil
 	case "max":
 		return floats.Max, nil
 	case "min":
@@ -86,7 +100,7 @@ func newVectorAccumulator(expr parser.ItemType) (vectorAccumulator, error) {
 		}, nil
 	case "avg":
 		return func(in []float64) float64 {
-			return floats.Sum(in) / float64(len(in))
+			return sumFloats(in) / float64(len(in))
 		}, nil
 	case "group":
 		return func(in []float64) float64 {
